@@ -35,7 +35,7 @@ def draw_case(data, tier):
     s = data.draw(st.integers(0, 3), label="s")
     extra = data.draw(st.integers(0, 4), label="extra") if data.draw(st.integers(0, 7), label="long_T") else data.draw(st.integers(5, 24), label="extra_long")
     T = s + (p + f - 1) * dt + 1 + extra
-    down = data.draw(st.sampled_from([0, 0, 0, 1, 1, 2]), label="downsample")
+    down = data.draw(st.sampled_from([0, 0, 0, 1, 1, 2, 3]), label="downsample")
     if down:
         shape = [2**down * data.draw(st.integers(1, 2)), 2**down * data.draw(st.integers(1, 2))]
     else:
